@@ -104,7 +104,7 @@ func enumGrid(yield func(Case) bool) {
 				}
 				if fault >= 0 {
 					// the settings of all fields declared before it are processed first
-					ss := sites(t, c.Cfg)
+					ss := sites(t, c.Cfg, "")
 					before := 0
 					for _, s := range ss {
 						if s.leaf && topFieldIndex(t, s.path[0]) < topFieldIndex(t, fs[fault].name) {
